@@ -110,8 +110,8 @@ C_CanJoin(c)        == c.ev = "canjoin" => c.ok = CanJoinSpec(c.gen, c.prevPrese
 C_CanJoinEnabled(c) == c.ev = "canjoin" => c.enabled = (c.gen.kind = "spread" /\ c.gen.cj)
 
 (* Observation of a whole reserve: c = [ev |-> "observe", via, inst, zone, toks (sequence)].      *)
-(* via = "direct" (GenerateTokens(R, {})), "bylarger" (what the computation of a generator with a *)
-(* larger index attributes to inst; order not significant), "partition" (AddPartition).           *)
+(* via = "direct" (GenerateTokens(R, {})) or "bylarger" (what the computation of a generator with *)
+(* a larger index attributes to inst, sorted).                                                    *)
 IsObs(c) == c.ev = "observe"
 C_ObsShape(c)     == IsObs(c) => /\ Len(c.toks) = R /\ Sorted(c.toks)
                                  /\ \A t \in Range(c.toks) : IsTok(t) /\ Cong(t) = c.zone
@@ -328,18 +328,21 @@ PureCall == /\ ring = EmptyFcn /\ parts = EmptyFcn
                   /\ (m \in Foreign => SpaceHasAtLeast(Cardinality(taken) + Want(req)))
                   /\ Generate(GenOf(m, FALSE), NoMember, req, taken)
 
-(* a member joins or tops up its tokens; with cj it first passes the CanJoin check *)
+(* a member joins or tops up its tokens; with CJ it first passes the CanJoin check.  (Model   *)
+(* bound: a member with random tokens holds at most R of them.)                              *)
 Join == \E m \in Members, req \in Reqs :
           LET g == GenOf(m, CJ) IN
           /\ CanJoinSpec(g, PrevPresent(g), PrevHasTokens(g))
-          /\ (m \in Foreign => SpaceHasAtLeast(Cardinality(pool) + Want(req)))
+          /\ (m \in Foreign => /\ SpaceHasAtLeast(Cardinality(pool) + Want(req))
+                                /\ Want(req) + (IF m \in DOMAIN ring THEN Cardinality(ring[m].toks) ELSE 0) <= R)
           /\ Generate(g, m, req, pool)
 
 Lose  == \E m \in DOMAIN ring : \E t \in ring[m].toks : LoseObs(m, {t})
 Leave == \E m \in DOMAIN ring : LeaveObs(m)
 
-Observe == \E k \in Keys, via \in {"direct", "bylarger", "partition"} :
-              ObserveObs(via, k[1], k[2], reserve[k])
+Observe == \E k \in Keys, via \in {"direct", "bylarger"} :
+              /\ ring = EmptyFcn /\ parts = EmptyFcn       \* (independent of the ring: explored from the initial states only)
+              /\ ObserveObs(via, k[1], k[2], reserve[k])
 
 CanJoin == \E m \in Members, cj \in BOOLEAN :
              LET g == GenOf(m, cj) IN
@@ -349,7 +352,8 @@ CanJoin == \E m \in Members, cj \in BOOLEAN :
 AddPartition == \E p \in Insts : /\ ring = EmptyFcn
                                  /\ AddPartitionObs(p, reserve[<<p, 0>>], FALSE)
 
-Family == \E n \in Insts, z \in Zones : FamilyObs(z, [j \in 1..(n+1) |-> reserve[<<j-1, z>>]])
+Family == \E n \in Insts, z \in Zones : /\ ring = EmptyFcn /\ parts = EmptyFcn
+                                         /\ FamilyObs(z, [j \in 1..(n+1) |-> reserve[<<j-1, z>>]])
 
 Construct == \E ctor \in {"name", "id", "seed", "time"}, nz \in 0..(MaxZ+1), zin \in BOOLEAN, idok \in BOOLEAN :
                /\ ring = EmptyFcn /\ parts = EmptyFcn
